@@ -310,6 +310,13 @@ func (q *Queue) Read(pids []packets.PacketID) (elems []*queue.Elem, err error) {
 	if q.closed {
 		return nil, queue.ErrClosed
 	}
+	if len(pids) == 0 {
+		// Nothing may be read. LRANGE cur cur-1 is empty by construction, but at cursor 0 it is
+		// LRANGE 0 -1: the whole list.
+		q.notifier.NotifyMsgQueueAdded(0)
+		q.notifier.NotifyInflightAdded(0)
+		return nil, nil
+	}
 	rs, err := redigo.Values(conn.Do("lrange", getKey(q.clientID), q.current, q.current+len(pids)-1))
 	if err != nil {
 		return nil, wrapError(err)
